@@ -13,7 +13,7 @@ def encode_timedelta(obj):
 
 def encode_datetime(obj):
     units, _ = np.datetime_data(obj.dtype)
-    reference = obj[0]
+    reference = obj.reshape(-1)[0] if obj.size else np.datetime64(0, units)
 
     encoding = {"reference": str(reference), "units": units}
     encoded = (obj - reference).astype("int64").tolist()
